@@ -281,8 +281,9 @@ def run(ctx, rep):
         for cs in f.calls():
             if cs.name in LOCK_NAMES and any(t in cs.callee for t in LOCK_TYPES):
                 lock_sites.append((p, cs))
-    good = [x for x in lock_sites if x[0] == c04.LOCK]
-    other = [x for x in lock_sites if x[0] != c04.LOCK]
+    lk = c04.lock_path(F)
+    good = [x for x in lock_sites if x[0] == lk]
+    other = [x for x in lock_sites if x[0] != lk]
     if len(good) == 1:
         rep.ok("C20.locks", "the inference context's mutex is taken only in Context::lock", good[0][1].callee)
     else:
